@@ -110,7 +110,7 @@ class Interp:
         return None
 
     def _call(self, f, st, env):
-        name = (st.get('callee') or st.get('fn') or '').split('::')[-1]
+        name = (st.get('fn') or (st.get('callee') or '').split('<')[0].split('::')[-1]).split('<')[0]
         args = [self.ev(f, a, env) for a in st.get('args', [])]
         if name in self.hooks:
             return self.hooks[name](self, f, st, args)
@@ -231,6 +231,17 @@ class Interp:
             base = f.s(f.strip_casts(st['ch'][0])) if st['ch'] else None
             if base is None or base['k'] == 'CXXThisExpr':
                 return ('field', st['n'])
+            # a field of a record held in a dict-shaped region: ptr->name, or (record lvalue).name
+            if st.get('arrow'):
+                p = self.ev(f, st['ch'][0], env)
+                if isinstance(p, P) and isinstance(self.mem.get(p.r), dict):
+                    return ('dict', self.mem[p.r], st['n'])
+            else:
+                b = self.lv(f, st['ch'][0], env)
+                if b[0] == 'dict' and isinstance(b[1].get(b[2]), dict):
+                    return ('dict', b[1][b[2]], st['n'])
+                if b[0] == 'field' and isinstance(self.this.get(b[1]), dict):
+                    return ('dict', self.this[b[1]], st['n'])
         if k == 'ArraySubscriptExpr':
             b, i = self.ev(f, st['ch'][0], env), self.ev(f, st['ch'][1], env)
             if isinstance(i, P):
@@ -243,6 +254,11 @@ class Interp:
             p = self.ev(f, st['ch'][0], env)
             if isinstance(p, P):
                 return ('mem', p)
+        if (k == 'UnaryOperator' and st.get('op') in ('++', '--') and not st.get('post')) or (k in ('BinaryOperator', 'CompoundAssignOperator') and st.get('op', '').endswith('=') and
+                                                                                               st['op'] not in ('==', '!=', '<=', '>=')):
+            # in C++ these are lvalues: carry the operation out, then designate the operand
+            self.ev(f, e, env)
+            return self.lv(f, st['ch'][0], env)
         raise AnalysisBroken('%s: unsupported lvalue %s at %s' % (f.short, k, f.loc(e)))
 
     def read(self, f, st, loc, env):
@@ -256,6 +272,10 @@ class Interp:
             return self.this.get(loc[1])
         if loc[0] == 'dep':
             return loc[1]
+        if loc[0] == 'dict':
+            if loc[2] not in loc[1]:
+                raise AnalysisBroken('%s: field %s is not part of the replayed record (%s)' % (f.short, loc[2], f.loc(st['i'])))
+            return loc[1][loc[2]]
         return self.load(f, st, loc[1])
 
     def write(self, f, st, loc, v, env):
@@ -265,6 +285,8 @@ class Interp:
             self.this[loc[1]] = v
         elif loc[0] == 'dep':
             raise AnalysisBroken('%s: store at an abstract index (%s)' % (f.short, f.loc(st['i'])))
+        elif loc[0] == 'dict':
+            loc[1][loc[2]] = v
         else:
             self.store(f, st, loc[1], v)
 
@@ -284,7 +306,11 @@ class Interp:
             if ck in ('LValueToRValue',):
                 return self.read(f, st, self.lv(f, st['ch'][0], env), env)
             v = self.ev(f, st['ch'][0], env)
-            if ck in ('IntegralCast', 'IntegralToBoolean') or (ck in ('NoOp', None) and isinstance(v, int) and '*' not in (st.get('ct') or st.get('t') or '')):
+            if ck in ('IntegralToBoolean', 'PointerToBoolean'):
+                if isinstance(v, P):
+                    return 1
+                return int(v != 0) if isinstance(v, int) else None
+            if ck in ('IntegralCast',) or (ck in ('NoOp', None) and isinstance(v, int) and '*' not in (st.get('ct') or st.get('t') or '')):
                 return wrap(v, st.get('ct') or st.get('t'))
             return v
         if k == 'DeclRefExpr':
@@ -319,6 +345,10 @@ class Interp:
                 loc = self.lv(f, st['ch'][0], env)
                 if loc[0] == 'mem':
                     return loc[1]
+                if loc[0] == 'dict' and isinstance(loc[1].get(loc[2]), dict):
+                    name = 'rec@%d' % id(loc[1][loc[2]])
+                    self.mem[name] = loc[1][loc[2]]
+                    return P(name, 0)
                 if loc[0] == 'var' and isinstance(env.get(loc[1]), P):
                     return env[loc[1]]
                 if loc[0] == 'var':
@@ -358,6 +388,11 @@ class Interp:
                 return v
             a, b = self.ev(f, st['ch'][0], env), self.ev(f, st['ch'][1], env)
             return wrap(self.arith(f, st, op, a, b), st.get('ct') or st.get('t'))
+        if k in ('CXXNullPtrLiteralExpr', 'GNUNullExpr'):
+            return 0
+        if k == 'CXXConstructExpr':
+            a = st.get('args') or []
+            return self.ev(f, a[0], env) if len(a) == 1 else None
         if k in q.CALL_KINDS:
             return self._call(f, st, env)
         raise AnalysisBroken('%s: unsupported expression %s at %s' % (f.short, k, f.loc(e)))
